@@ -5,6 +5,12 @@ here = os.path.dirname(os.path.abspath(__file__))
 claims = json.load(open(os.path.join(here, "claims.json")))
 props = [json.loads(l) for l in open("/verif/properties.jsonl")]
 ids = [p["id"] for p in props]
+import subprocess
+try:
+    out = subprocess.run(["git", "-C", "/repo", "log", "--format=%h %s"], capture_output=True, text=True).stdout
+    hook_commits = [l.split()[0] for l in out.splitlines() if " verif hook" in l][::-1]
+except Exception:
+    hook_commits = claims.get("_hook_commits", [])
 checks = []
 na = []
 for pid in ids:
@@ -30,7 +36,7 @@ m = {
         "guard": "verif",
         "enable": "go build -tags verif ./... (the tag only adds comment-only contracts_verif.go files; walvc loads /repo with -tags=verif)",
         "baseline_off_cmd": "cd /repo && GOFLAGS=-mod=mod GOPROXY=off GOSUMDB=off go test -json -vet=off -count=1 -timeout 25m ./...",
-        "source_commits": claims.get("_hook_commits", []),
+        "source_commits": hook_commits,
         "add_only": True,
     },
     "engines": [{"name": "walvc", "path": "/verif/vc", "serves_properties": [c["property_id"] for c in checks],
